@@ -310,6 +310,17 @@ class Program:
             return f(node.left) + f(node.right)
         if isinstance(node, ast.BinOp) and isinstance(node.op, ast.BitOr):
             return f(node.left) | f(node.right)
+        if isinstance(node, ast.BinOp) and isinstance(node.op, (ast.Sub, ast.Mult, ast.FloorDiv, ast.Mod)):
+            import operator as _o
+            l2, r2 = f(node.left), f(node.right)
+            if isinstance(node.op, ast.Mod) and isinstance(l2, str):
+                return l2 % r2
+            if not all(isinstance(x_, int) and not isinstance(x_, bool) for x_ in (l2, r2)) and not (isinstance(node.op, ast.Mult) and isinstance(l2, (str, int)) and isinstance(r2, (str, int))):
+                raise CannotFold(f"arithmetic on non-integers: {unparse(node)[:60]}")
+            try:
+                return {ast.Sub: _o.sub, ast.Mult: _o.mul, ast.FloorDiv: _o.floordiv, ast.Mod: _o.mod}[type(node.op)](l2, r2)
+            except ZeroDivisionError:
+                raise CannotFold("division by zero")
         if isinstance(node, ast.BinOp) and isinstance(node.op, ast.Div):
             l_ = f(node.left)
             if not hasattr(l_, "__sym_div__"):
@@ -341,11 +352,20 @@ class Program:
                         return self.fold(mod, ci.class_consts[node.attr], env)
             if isinstance(node.value, ast.Attribute) and node.attr == "value":
                 return f(node.value)
+            # attributes of a symbolic pathlib value supplied through env
+            import pathlib as _pl
+            try:
+                base_ = f(node.value)
+            except CannotFold:
+                base_ = None
+            if isinstance(base_, _pl.PurePath) and node.attr in ("name", "suffix", "stem", "suffixes", "parent", "parts"):
+                return getattr(base_, node.attr)
             raise CannotFold(f"attribute not foldable: {unparse(node)}")
         if isinstance(node, ast.Call):
             fn = node.func
             # str methods on folded receivers
-            if isinstance(fn, ast.Attribute) and fn.attr in ("lstrip", "rstrip", "strip", "lower", "upper", "split", "keys", "values", "items", "replace", "startswith", "endswith", "join", "format", "zfill", "rjust", "ljust", "title", "capitalize"):
+            if isinstance(fn, ast.Attribute) and fn.attr in ("lstrip", "rstrip", "strip", "lower", "upper", "split", "keys", "values", "items", "replace", "startswith", "endswith", "join", "format", "zfill", "rjust", "ljust", "title", "capitalize",
+                                                             "partition", "rpartition", "rsplit", "splitlines", "casefold", "isdigit"):
                 recv = f(fn.value)
                 args = [f(a) for a in node.args]
                 if fn.attr in ("keys", "values", "items"):
@@ -361,6 +381,14 @@ class Program:
             cname = unparse(fn)
             if cname == "len" and len(node.args) == 1:
                 return len(f(node.args[0]))
+            if cname in ("str", "int", "bool", "abs") and len(node.args) == 1 and not node.keywords:
+                v_ = f(node.args[0])
+                if not isinstance(v_, (str, int, bool)):
+                    raise CannotFold(f"conversion not foldable: {unparse(node)[:60]}")
+                try:
+                    return {"str": str, "int": int, "bool": bool, "abs": abs}[cname](v_)
+                except (ValueError, TypeError):
+                    raise CannotFold(f"conversion fails: {unparse(node)[:60]}")
             if cname == "re.escape" and len(node.args) == 1:
                 import re as _re
                 return _re.escape(f(node.args[0]))
@@ -423,7 +451,11 @@ class Program:
             return set(out) if isinstance(node, ast.SetComp) else out
         if isinstance(node, ast.Subscript):
             base = f(node.value)
-            idx = f(node.slice)
+            if isinstance(node.slice, ast.Slice):
+                sl = node.slice
+                idx = slice(f(sl.lower) if sl.lower is not None else None, f(sl.upper) if sl.upper is not None else None, f(sl.step) if sl.step is not None else None)
+            else:
+                idx = f(node.slice)
             return base[idx]
         if isinstance(node, ast.BoolOp):
             vals = [f(v) for v in node.values]          # constants: evaluation order / short-circuit do not matter
@@ -446,6 +478,14 @@ class Program:
                 return l == r
             if isinstance(op, ast.NotEq):
                 return l != r
+            if isinstance(op, (ast.Lt, ast.LtE, ast.Gt, ast.GtE)):
+                import operator as _o2
+                try:
+                    return {ast.Lt: _o2.lt, ast.LtE: _o2.le, ast.Gt: _o2.gt, ast.GtE: _o2.ge}[type(op)](l, r)
+                except TypeError:
+                    raise CannotFold(f"comparison not foldable: {unparse(node)[:60]}")
+            if isinstance(op, (ast.Is, ast.IsNot)) and r is None:
+                return (l is None) == isinstance(op, ast.Is)
         raise CannotFold(f"expression not foldable: {unparse(node)[:80]}")
 
     def _propagate(self, mod: Module, stmts: T.List[ast.stmt], env: T.Dict[str, T.Any], who: str, depth: int = 0) -> None:
@@ -461,6 +501,8 @@ class Program:
                 val = _copy.deepcopy(self.fold(mod, st.value, env))
                 if isinstance(tgt, ast.Name):
                     env[tgt.id] = val
+                elif isinstance(tgt, (ast.Tuple, ast.List)) and all(isinstance(e_, ast.Name) for e_ in tgt.elts):
+                    _bind(tgt, val, env)
                 elif isinstance(tgt, ast.Subscript) and isinstance(tgt.value, ast.Name) and tgt.value.id in env and isinstance(env[tgt.value.id], (dict, list)):
                     env[tgt.value.id][self.fold(mod, tgt.slice, env)] = val
                 else:
